@@ -109,6 +109,43 @@ def fresh_nonce_rule(ctx, rid):
                         [POST, "nonce-read-hoisted"])
 
 
+def new_nonce_source_rule(ctx, rid):
+    """a nonce is fetched from the directory's newNonce URL (RFC 8555 7.2): the request made by http::new_nonce goes to
+    endpoint.dir.new_nonce — a server need not attach Replay-Nonce to any other resource"""
+    from ..flow import arg_origins
+    prog = ctx.prog
+    nb = prog.async_body("acmed::http::new_nonce")
+    reqs = [c for c in nb.calls if c.bb in nb.live_blocks() and (c.name or "") in ("acmed::http::get", "acmed::http::head", "acmed::http::post") or
+            (c.bb in nb.live_blocks() and (c.name or "").rsplit("::", 1)[-1] in ("get", "head") and "reqwest" in (c.name or ""))]
+    ctx.floor(rid, "request made by http::new_nonce", len(reqs), 1)
+    for c in reqs:
+        fields = set()
+        for k in range(len(c.args)):
+            fields |= arg_origins(c, k).fields
+        good = ("acmed::acme_proto::structs::directory::Directory", "new_nonce") in fields and ("acmed::endpoint::Endpoint", "url") not in fields
+        ctx.require(rid, good, c.where(), "new_nonce requests the directory's newNonce URL (endpoint.dir.new_nonce)", ["acmed::http::new_nonce", "url-source"])
+
+
+def keyed_endpoint_update_rule(ctx, rid):
+    """the per-endpoint bookkeeping of an account (account URL, orders URL, key / contacts / binding fingerprints) is written for the NAMED
+    endpoint only: the record comes from a lookup by the endpoint-name parameter, never from a walk over all endpoints (an account is
+    registered separately with each CA: a key rolled over on one endpoint is not the key on record at the others)"""
+    from ..flow import origins
+    prog = ctx.prog
+    ACC = "acmed::account::Account"
+    for fn in ("update_key_hash", "update_contacts_hash", "update_external_account_hash", "set_account_url", "set_orders_url"):
+        b = prog.body(ACC + "::" + fn)
+        if b is None:
+            continue
+        walks = [c for c in b.calls if c.bb in b.live_blocks() and (c.name or "").rsplit("::", 1)[-1] in ("values_mut", "iter_mut", "for_each", "retain", "drain")
+                 and c.args and (ACC, "endpoints") in __import__("rules.flow", fromlist=["arg_origins"]).arg_origins(c, 0).fields]
+        ctx.require(rid, not walks, walks[0].where() if walks else "%s:%s" % (b.file, b.line), "Account::%s touches only the endpoint it is given (no walk over all endpoints)" % fn,
+                    [ACC + "::" + fn, "all-endpoints"])
+        looked = [c for c in b.calls if c.bb in b.live_blocks() and ((c.name or "").endswith("::get_endpoint_mut") or (c.name or "").rsplit("::", 1)[-1] in ("get_mut", "entry"))]
+        by_name = [c for c in looked if any(__import__("rules.flow", fromlist=["arg_origins"]).arg_origins(c, k).has_leaf("param:2") for k in range(1, len(c.args)))]
+        ctx.require(rid, bool(by_name), "%s:%s" % (b.file, b.line), "Account::%s looks the record up by its endpoint-name parameter" % fn, [ACC + "::" + fn, "by-name"])
+
+
 def nonce_update_rule(ctx, rid):
     """once a response arrived, update_nonce(endpoint, response) runs before the status is examined, before any return and before
     the next transmission — whatever the status: a refused request has consumed its nonce too, and the server's replacement must
